@@ -10,7 +10,9 @@ import (
 
 // hostile are the values written over length prefixes, counts, enums, bools and
 // indices (little-endian 64-bit windows, aligned or not).
-var hostile = []uint64{0, 1, 2, 255, 256, 1 << 16, 1 << 20, 1 << 24, 1<<31 - 1, 1 << 31, 1 << 32, 1 << 62, 1 << 63, ^uint64(0)}
+var hostile = []uint64{0, 1, 2, 255, 256,
+	1 << 16, 1 << 17, 1 << 18, 1 << 19, 1 << 20, 1 << 21, 1 << 22, 1 << 23, 1 << 24, // measurable allocations
+	1<<31 - 1, 1 << 31, 1 << 32, 1 << 62, 1 << 63, ^uint64(0)}
 
 // hostileBytes are written over single bytes (bools, opcodes, versions, tags, kinds).
 var hostileBytes = []byte{0, 1, 2, 3, 4, 5, 6, 7, 8, 0x7f, 0x80, 0xfe, 0xff}
